@@ -293,3 +293,9 @@ PROP.obligation('C02.digest-legacy', canaries=[
     mut.drop_stmt('transactions', 'Transaction.raw', "r += self.locktime.to_bytes(4, 'little')", 'locktime not committed'),
 ])(c01.legacy)
 PROP.obligation('C02.same-digest')(c01.same_digest)
+
+
+from . import c01 as _c01
+PROP.obligation('C02.indexes-follow-position', canaries=[
+    mut.drop_stmt('transactions', 'Transaction.merge_transaction', 'self.shuffle()', 'merged inputs keep the index numbers they had in their own transactions'),
+])(_c01.indexes_follow_position)
